@@ -450,7 +450,7 @@ def run_history_lemmas(prop, results, only):
         if open_:
             entry["status"] = "not applicable in this run: step contracts not discharged: " + "; ".join(open_[:3])
             continue
-        bad = _queue_frame_fact()
+        bad = _queue_frame_fact() if lem.get("frame_check") == "socket-queue" else []
         if bad:
             entry["status"] = "not applicable: frame condition of the lemma does not hold: " + "; ".join(bad[:3])
             und.append(("history-lemma", f"the queue / writer is touched outside the functions under step contract ({bad[0]}): "
